@@ -182,6 +182,7 @@ func runC04(c *Ctx) {
 
 	c.c04LinkTestOnCleanPath(fns)
 	c.c04AbsenceOnlyFromLstat(fns)
+	c.c04PatternsHandedDown(fns)
 	c.rule("N14", absentOnlyWhenAbsentText, 3)
 	c.c04AbsentOnlyWhenAbsent("N14", nil)
 	for _, f := range fns {
@@ -1043,5 +1044,71 @@ func (c *Ctx) c04AbsenceOnlyFromLstat(fns []*ssa.Function) {
 	}
 	if n == 0 {
 		c.info("N15", "filesystem/no-success-by-kind", "-", "no function of the removal call graph concludes success from the kind of an error")
+	}
+}
+
+// c04PatternsHandedDown (N16): "entries matching an exclusion pattern survive together with their ancestors" — at every depth.
+// The removal descends by calling itself through helpers; a helper that receives the caller's patterns and calls the next
+// removal function without them removes everything below that point unprotected. Decided over the removal call graph: a
+// function with a patterns parameter (`...string`, `[]string` or `[]*regexp.Regexp` named like exclusion patterns) that calls
+// a function of the graph which has one too, hands over a value derived from its own.
+func (c *Ctx) c04PatternsHandedDown(fns []*ssa.Function) {
+	c.rule("N16", "in the removal call graph the exclusion patterns a function received are handed to every function of the graph it calls that takes patterns: what is protected at the first level is protected at every depth", 4)
+	inGraph := map[*ssa.Function]bool{}
+	for _, f := range fns {
+		inGraph[f] = true
+	}
+	patternParam := func(g *ssa.Function) int {
+		for i, p := range g.Params {
+			t := p.Type().String()
+			if (t == "[]string" || t == "[]*regexp.Regexp") && strings.Contains(strings.ToLower(p.Name()), "exclusion") {
+				return i
+			}
+		}
+		return -1
+	}
+	for _, f := range fns {
+		if f.Parent() != nil || f.Blocks == nil {
+			continue
+		}
+		pi := patternParam(f)
+		if pi < 0 {
+			continue
+		}
+		own := f.Params[pi]
+		n := 0
+		withAnon(f, func(h *ssa.Function) {
+			allInstrs(h, func(in ssa.Instruction) {
+				cl, ok := in.(*ssa.Call)
+				if !ok {
+					return
+				}
+				g := staticCallee(&cl.Call)
+				if g == nil || !inGraph[g] || g == f && false {
+					return
+				}
+				gi := patternParam(g)
+				if gi < 0 || gi >= len(cl.Call.Args) {
+					return
+				}
+				handed := false
+				for _, l := range sources(cl.Call.Args[gi], deriveOpts{through: func(string) bool { return true }}) {
+					if rv := resolveValue(l); rv == ssa.Value(own) {
+						handed = true
+					}
+					if fv, isFv := l.(*ssa.FreeVar); isFv && fv.Name() == own.Name() {
+						handed = true
+					}
+				}
+				key := fname(f) + "/patterns-to:" + g.Name()
+				if n > 0 {
+					key += "#" + strconv.Itoa(n)
+				}
+				n++
+				c.FuncsSeen[fname(f)] = true
+				c.check(handed, "N16", key, c.ipos(cl), "the patterns received are handed on",
+					fname(f)+" receives exclusion patterns and calls "+g.Name()+" without them: everything below that call is removed with no pattern at all — an excluded entry two levels down is deleted together with its ancestors, and the call reports success")
+			})
+		})
 	}
 }
